@@ -130,6 +130,10 @@ class ScriptEnv(gym.Env):
         self.never_reset = True
         self.total_steps = 0
         self.snap_on_step = snap_on_step
+        # int_first: the first reset observation is an integer array and the
+        # first reward the Python int 1 (whole numbers, as a sparse-reward
+        # environment may hand them out); everything later is float
+        self.int_first = False
 
     def _obs(self):
         o = np.zeros(self.obs_dim, dtype=np.float32)
@@ -144,6 +148,8 @@ class ScriptEnv(gym.Env):
         self.never_reset = False
         o = self._obs()
         self.trace.ev("reset", env=self.name, seed=seed, obs=o.copy())
+        if self.int_first and self.total_steps == 0:
+            return o.astype(np.int64), {}
         return o, {}
 
     def step(self, action):
@@ -164,6 +170,8 @@ class ScriptEnv(gym.Env):
         self.ended = terminated or truncated
         o = self._obs()
         r = 0.5 + 0.001 * self.total_steps + 0.25 * self.env_id
+        if self.int_first and self.total_steps == 1:
+            r = 1
         self.trace.ev("step", env=self.name, action=a, obs=o.copy(), reward=r,
                       terminated=terminated, truncated=truncated, snap=snap,
                       task=getattr(self, "task", None))
